@@ -310,7 +310,9 @@ def slack_embedding(prog: Program, rep) -> None:
     cs = cp.methods["create_slacks"]
     ff = facts_for(cs)
     loops = [s for s in ff.order if isinstance(s.stmt, ast.For)]
-    if len(loops) == 1:
+    if _create_slacks_rowsem(prog, rep, cs):
+        pass
+    elif len(loops) == 1:
         _create_slacks_loop_form(prog, rep, cs, ff, loops[0])
     elif not loops:
         _create_slacks_mask_form(prog, rep, cs, ff)
@@ -332,12 +334,14 @@ def slack_embedding(prog: Program, rep) -> None:
     rep.check(off_ok, "slack-cons", cn.qualname, "cons offsets", "the offsets are ADDED to c(x) (so that l <= c <= u with l == u becomes c - l == 0)", cn.loc())
     coeff = None
     sub_ok = False
+    # slack_vals(x) is x[n:] (slack-layout rule): either spelling names the slack block
+    slack_spell = (f"self.slack_vals({xs})", f"{xs}[self.problem.num_vars:]")
     for s in fc.order:
         st = s.stmt
         if isinstance(st, ast.For):
             itx = st.iter
             if isinstance(itx, ast.Call) and dotted(itx.func) == "zip" and len(itx.args) == 2 and U(itx.args[0]) == "self.slack_positions" \
-                    and U(fc.resolved(st, itx.args[1])) == f"self.slack_vals({xs})" and isinstance(st.target, ast.Tuple):
+                    and U(fc.resolved(st, itx.args[1])) in slack_spell and isinstance(st.target, ast.Tuple):
                 pos, val = U(st.target.elts[0]), U(st.target.elts[1])
                 if len(st.body) == 1 and isinstance(st.body[0], ast.AugAssign):
                     b = st.body[0]
@@ -349,7 +353,7 @@ def slack_embedding(prog: Program, rep) -> None:
         for s in fc.order:
             st = s.stmt
             if isinstance(st, ast.AugAssign) and isinstance(st.target, ast.Subscript) and U(st.target.slice) == "self.slack_positions" \
-                    and U(fc.resolved(st, st.value)) == f"self.slack_vals({xs})":
+                    and U(fc.resolved(st, st.value)) in slack_spell:
                 coeff = -1.0 if isinstance(st.op, ast.Sub) else (1.0 if isinstance(st.op, ast.Add) else None)
                 sub_ok = True
     rep.check(sub_ok and coeff == -1.0, "slack-cons", cn.qualname, "slack subtraction", f"slack k is SUBTRACTED from row slack_positions[k] of c(x) (coefficient found: {coeff})", cn.loc())
@@ -512,6 +516,43 @@ def pipeline(prog: Program, rep) -> None:
               "restore_sol drops the slacks first and then applies unscale_primal / unscale_dual / unscale_bounds_dual to the x / y / d slots", rs.loc())
 
 
+def _create_slacks_rowsem(prog, rep, cs) -> bool:
+    """create_slacks by its row semantics (rowsem.py): whatever mixture of loops, comprehensions and masks it is written in, the
+    slack index set, the offsets and the keep-condition are functions of one row's bounds and are compared on the finitely many
+    row types.  False if the method uses a construct outside the interpreter's language (the form-based rules then apply)."""
+    from .. import rowsem
+    try:
+        S, off, masks = rowsem.analyse(cs.node)
+        rows_bad = [rt for rt in rowsem.ROW_TYPES if rowsem.eval_pred(S, rt) != (not rt["E"])]
+        bad_keep = bad_val = None
+        for world in rowsem.worlds():
+            entry = rowsem.offsets_in_world(off, masks, world)
+            needs = any(rt["E"] and not rt["Z"] for rt in world)
+            if entry is None:
+                if needs and bad_keep is None:
+                    bad_keep = world
+                continue
+            for rt in world:
+                v = rowsem.eval_value(entry, rt)
+                want = "-lb" if rt["E"] and not rt["Z"] else "zero"
+                if v != want and bad_val is None:
+                    bad_val = (rt, v)
+    except rowsem.Unsupported as e:
+        rep.note(f"create_slacks: row semantics not applicable ({e}); form-based rules used")
+        return False
+
+    def show(rt):
+        return ("lb == ub" if rt["E"] else "lb != ub") + (", lb == 0" if rt["Z"] else ", lb != 0")
+    rep.check(not rows_bad, "slack-rows", cs.qualname, "self.slack_positions", "row i gets a slack iff cons_lb[i] != cons_ub[i] (row semantics, all row types)"
+              + (f"; differs on a row with {show(rows_bad[0])}" if rows_bad else ""), cs.loc())
+    rep.check(bad_val is None, "slack-offsets", cs.qualname, "cons_offsets[i]", "an equality row i gets the offset -cons_lb[i] and every other row none (row semantics)"
+              + (f"; a row with {show(bad_val[0])} gets `{bad_val[1]}`" if bad_val else ""), cs.loc())
+    rep.check(bad_keep is None, "slack-offsets", cs.qualname, "self.cons_offsets", "the offsets are kept whenever some equality row has a non-zero right-hand side (row semantics)"
+              + (f"; dropped although such a row exists among {[show(r) for r in bad_keep]}" if bad_keep else ""), cs.loc())
+    rep.extra["create_slacks_rowsem"] = {"slack_predicate": U(S)[:200], "masks": [U(m)[:120] for m in masks]}
+    return True
+
+
 def _create_slacks_loop_form(prog, rep, cs, ff, loop_si) -> None:
     lp = loop_si.stmt
     loops = [loop_si]
@@ -661,8 +702,18 @@ def _slack_start(prog, rep, ts, ft, ox) -> None:
 
     def clip_ok(v, idx_txt):
         cons_txt = f"self.problem.cons({ox})[{idx_txt}]"
-        return np_call(v, "clip") and len(v.args) == 3 and not v.keywords and \
-            [U(a) for a in v.args] == [cons_txt, f"self.problem.cons_lb[{idx_txt}]", f"self.problem.cons_ub[{idx_txt}]"]
+        if not (np_call(v, "clip") and len(v.args) == 3 and not v.keywords):
+            return False
+        a0 = v.args[0]
+        if isinstance(a0, ast.Subscript):
+            # c(x0) may be passed through np.asarray / np.atleast_1d / np.array first (the values are the same)
+            b_ = a0.value
+            while np_call(b_, "asarray", "array", "atleast_1d", "asanyarray") and len(b_.args) == 1 and not b_.keywords:
+                b_ = b_.args[0]
+            a0_txt = f"{U(b_)}[{U(a0.slice)}]"
+        else:
+            a0_txt = U(a0)
+        return [a0_txt] + [U(a) for a in v.args[1:]] == [cons_txt, f"self.problem.cons_lb[{idx_txt}]", f"self.problem.cons_ub[{idx_txt}]"]
 
     def is_clip(v):
         return any(np_call(n, "clip") for n in ast.walk(v))
